@@ -67,14 +67,44 @@ def run(repo, rep):
     add = repo.func('statuses', 'add_status')
     rep.analysed(add)
     helper = lambda fi: fi.module.name == 'statuses' and fi.cls is None and fi.name not in ('add_status', 'register_statuses')
+    def new_params(fi, n_old):
+        """{parameter added behind the n_old known ones: text of its default} -- the property is about the calls that do not
+        give them, so the rules read the function with each such parameter at its default"""
+        extra = fi.params[n_old:]
+        dfl = fi.node.args.defaults
+        named = [a.arg for a in fi.node.args.args]
+        out = {}
+        for p_ in extra:
+            i_ = named.index(p_) - (len(named) - len(dfl))
+            if i_ < 0 or not isinstance(dfl[i_], ast.Constant):
+                return None
+            out[p_] = repr(dfl[i_].value)
+        return out
+    add_new = new_params(add, 5)
     c = SymClient(repo, add, event_of=lambda *a: None, hierarchy=hier, inline=helper,
                   store_event=lambda t: t in ('_general_status_dict[]', '_status_dict[]'))
-    c.run(empty_state())
+    c.run(empty_state(dict(add_new or {})))
     stores = [(e, s) for e, s in c.log if e.kind == 'store']
     probs = []
     p_code, p_type, p_desc, p_end, p_cmd = (add.params + [None] * 5)[:5]
-    if add.params != ['code', 'code_type', 'description', 'end', 'command'] and len(add.params) != 5:
+    if add_new is None or (add.params[:5] != ['code', 'code_type', 'description', 'end', 'command'] and len(add.params) != 5):
         probs.append('unexpected signature %s' % add.params)
+    # a call that does give a new parameter registers something the old look-up must not see: no path on which such a
+    # parameter differs from its default writes one of the two tables Status(code, command) reads
+    if add_new:
+        cg = SymClient(repo, add, event_of=lambda *a: None, hierarchy=hier, inline=helper,
+                       store_event=lambda t: t in ('_general_status_dict[]', '_status_dict[]'))
+        cg.run(empty_state())
+        for e_, s_ in cg.log:
+            if e_.kind != 'store':
+                continue
+            for p_, d_ in add_new.items():
+                given = [cn for cn in e_.conds if cn in ('+%s is not None' % p_, '-%s is None' % p_, '+%s' % p_, '-not %s' % p_,
+                                                          '+%s != %s' % (p_, d_), '-%s == %s' % (p_, d_))]
+                if given:
+                    probs.append('a row registered with %s given is also written to %s (line %d): Status(code, command) -- called as before, '
+                                 'without %s -- now classifies that code by a row that was meant for one %s only'
+                                 % (p_, e_.callee.split('[')[0], e_.line, p_, p_))
     seen = {'general': 0, 'specific': 0}
     records_carry_code = False
     for e, s in stores:
@@ -147,6 +177,12 @@ def run(repo, rep):
         is_t = any(cn == '+isinstance(%s[0], tuple)' % item for cn in e.conds)
         not_t = any(cn == '-isinstance(%s[0], tuple)' % item for cn in e.conds)
         a = list(e.args)
+        kw_ = dict(e.kwargs)
+        if add_new and (len(a) > 5 or any(k_ in add_new for k_ in kw_)):
+            continue          # a row of the new kind: judged by the "given" clause of add_status above
+        for i_, p_ in enumerate(['code', 'code_type', 'description', 'end', 'command']):
+            if p_ in kw_ and len(a) == i_:
+                a.append(kw_[p_])
         if len(a) != 5:
             probs.append('add_status called with %d arguments' % len(a))
             continue
@@ -186,8 +222,9 @@ def run(repo, rep):
     init = sc.find_method('__init__')
     rep.analysed(init)
     vparam, cparam = init.params[1], init.params[2]
+    init_new = new_params(init, 3) or {}
     c = SymClient(repo, init, event_of=lambda *a: None, hierarchy=hier, inline=helper, store_event=lambda t: t.startswith('self.'))
-    fin = c.final_states(c.run(empty_state()))
+    fin = c.final_states(c.run(empty_state(dict(init_new))))
     probs = []
     spec = '_status_dict.get((%s.command_field, %s))' % (cparam, vparam)
     gen_d = '_general_status_dict.get(%s, UNKNOWN)' % vparam
